@@ -1,4 +1,4 @@
-import Proofs.Ledger.Genesis
+import Proofs.Ledger.GenesisExport
 /-!
 # C43 — Exported genesis reproduces the exported state
 
@@ -194,6 +194,29 @@ theorem init_establishes_app_pool (g : G) (l l' : L) (h : initApps g l = some l'
   rcases hp with h0 | h1
   · exact absurd h0 hne
   · exact h1
+
+/-- **From an accepted genesis to every later state** (ties C43 to C20/C28): the applications
+ledger written by `apps.InitGenesis` satisfies the ledger invariant with pool = Σ staked, hence —
+by the invariant theorems of the applications model — so does every state reached from it by any
+history of operations without a send to the pool address. -/
+theorem genesis_then_history_keeps_pool (g : G) (l l' : L) (h : initApps g l = some l') (hn : Apps.NodupKeys g.apps)
+    (hpos : ∀ e ∈ g.apps, 0 ≤ e.2.tokens) (hne : moduleBal l.accounts appPoolName ≠ 0)
+    (ops : List Apps.Op) (hnd : ∀ op ∈ ops, ∀ src amt, op ≠ Apps.Op.donate src amt) :
+    Apps.LedgerInv (Apps.run (toApps l') ops) ∧ (Apps.run (toApps l') ops).pool = Apps.sumBonded (Apps.run (toApps l') ops).apps := by
+  obtain ⟨hinv, hex⟩ := initApps_ledgerInv g l l' h hn hpos hne
+  refine ⟨Apps.run_ledgerInv _ ops hinv, ?_⟩
+  -- excess stays 0: every non-donation step keeps it
+  have key : ∀ (ops : List Apps.Op) (s : Apps.St), Apps.WF s → Apps.excess s = 0 →
+      (∀ op ∈ ops, ∀ src amt, op ≠ Apps.Op.donate src amt) → Apps.excess (Apps.run s ops) = 0 := by
+    intro ops
+    induction ops with
+    | nil => intro s _ e _; exact e
+    | cons op ops ih =>
+      intro s w e hno
+      have k := Apps.step_keeps s op (hno op List.mem_cons_self)
+      exact ih (Apps.step s op) (k.wf w) (by rw [k.ex w]; exact e) (fun o ho => hno o (List.mem_cons_of_mem _ ho))
+  have := key ops (toApps l') hinv.1 hex hnd
+  unfold Apps.excess at this; omega
 
 /-! ### concrete counterexamples (all replayed on the real application) -/
 
